@@ -23,6 +23,7 @@ import (
 	"github.com/blevesearch/bleve/v2/numeric"
 	"github.com/blevesearch/bleve/v2/search"
 	"github.com/blevesearch/bleve/v2/size"
+	"github.com/blevesearch/bleve/v2/util/simhook"
 	index "github.com/blevesearch/bleve_index_api"
 )
 
@@ -357,6 +358,7 @@ func (hc *TopNCollector) Collect(ctx context.Context, searcher search.Searcher, 
 	var totalDocs uint64
 	for err == nil && next != nil {
 		if totalDocs%CheckDoneEvery == 0 {
+			simhook.Yield("", "collect.poll")
 			select {
 			case <-ctx.Done():
 				search.RecordSearchCost(ctx, search.AbortM, 0)
